@@ -265,6 +265,19 @@ Definition an_acc_apply (k : akind) (s : aacc) (args : list aval) : aacc * ares 
     | None => go s
     end.
 
+(* decimal text of an integer (used by the partition key and by the wrapper string fallback) *)
+Fixpoint an_dec_f (f : nat) (n : N) : bytes :=
+  match f with
+  | O => []
+  | S f' => if (n <? 10)%N then [48 + n]%N else an_dec_f f' (n / 10)%N ++ [48 + n mod 10]%N
+  end.
+Definition an_dec (n : N) : bytes := an_dec_f (S (N.size_nat n)) n.           (* strconv.Itoa, n >= 0 *)
+Definition an_decz (z : Z) : bytes :=
+  match z with
+  | Zneg p => 45%N :: an_dec (Npos p)
+  | _ => an_dec (Z.to_N z)
+  end.
+
 (* ---------------------------------------------------------------- calls and fields *)
 Inductive afname := AFLag | AFLatest | AFHad | AFCcol | AFAcc (k : akind).
 
@@ -299,13 +312,24 @@ Definition an_call_apply (c : acall) (st : acstate) (r : arow) : acstate * ares 
   | _, _ => (st, ARV AVNull)      (* unreachable: states are created by an_new_state of the same call *)
   end.
 
+(* wrapper expressions over the calls of one item; their evaluation is defined below (an_weval) *)
+Inductive awop := WAdd | WSub | WMul.
+
+Inductive awexp :=
+| WSelf (i : nat)                 (* the i-th analytic call of the item *)
+| WCol (n : bytes)                (* a bare column *)
+| WNum (z : Z)                    (* an integer literal *)
+| WBin (op : awop) (a b : awexp). (* printed a op b; a Bin right operand (and a Bin left operand of another
+                                      operator) is parenthesised *)
+
 (* the field kinds of one SELECT item / WHERE placeholder *)
 Inductive afkind :=
 | AKSingle (c : acall)                    (* WrapperExpr = "" *)
 | AKWrapF (n : bytes) (c : acall)         (* n - <call>          : wrapper "n - __analytic_self__" *)
 | AKWrap2 (c1 c2 : acall)                 (* <call1> - <call2>   : "__analytic_self__ - __analytic_self_1__" *)
 | AKNamed (ign : bool)                    (* had_changed(ign, * ) *)
-| AKCols (prefix : bytes) (ign : aexp) (cols : list bytes).   (* changed_cols(prefix, ign, cols...) *)
+| AKCols (prefix : bytes) (ign : aexp) (cols : list bytes)    (* changed_cols(prefix, ign, cols...) *)
+| AKExpr (cs : list acall) (w : awexp).   (* any wrapper over the calls cs (WSelf i = the i-th call) *)
 
 Record afield := { af_kind : afkind; af_part : list bytes (* PARTITION BY *); af_when : option bytes (* WHEN n > 0 *) }.
 
@@ -336,6 +360,124 @@ Definition an_wsub (a b : ares) : aout :=
   | _, _ => AOV AVNull
   end.
 
+(* General wrapper expressions over one or several analytic calls of one select item (rsql/ast.go
+   splitAnalyticExprMulti: the i-th call is replaced by __analytic_self_i__; analytic.go evaluate: every call is
+   applied to its own state, every result - NULL included - is bound to its placeholder, then evalWrapper).
+   Operators + - * over calls, bare columns and non-negative integer literals.
+   evalWrapper (functions/expr_bridge.go EvaluateExpression, then expr.EvaluateValueWithNull), as observed and
+   compared on every run:
+     - numeric rule: operands convert to numbers (bool = 0 / 1), a NULL / text / missing operand makes the
+       whole item NULL - except that expr-lang itself joins text + text (an_wtyped);
+     - EXCEPT a parenthesis-free sum  x1 + x2 + ... + xn  whose operands are all calls / columns present in the
+       row: when every operand is an int / float64 the sum, otherwise the bridge's "string concatenation"
+       fallback joins cast.ToString of the operands (NULL = "", true = "true"): NULL + 3 = "3".
+   [sql = true] is the intended NULL-propagating arithmetic (a NULL operand of such a sum gives NULL); the code is
+   [sql = false]. *)
+Definition an_wres_num (x : ares) : option Z := match x with ARV v => an_wnum v | ARAvg _ _ => None end.
+
+Definition an_wop (op : awop) (p q : Z) : Z :=
+  match op with WAdd => p + q | WSub => p - q | WMul => p * q end%Z.
+
+Fixpoint an_wnumeval (vals : list ares) (r : arow) (w : awexp) : option Z :=
+  match w with
+  | WSelf i => match nth_error vals i with Some x => an_wres_num x | None => None end
+  | WCol n => match alookup n r with Some v => an_wnum v | None => None end
+  | WNum z => Some z
+  | WBin op a b => match an_wnumeval vals r a, an_wnumeval vals r b with
+                    | Some p, Some q => Some (an_wop op p q)
+                    | _, _ => None
+                    end
+  end.
+
+(* the operands of a parenthesis-free sum of calls / columns (None: any other shape) *)
+Fixpoint an_wsum_leaves (w : awexp) : option (list awexp) :=
+  match w with
+  | WSelf i => Some [WSelf i]
+  | WCol n => Some [WCol n]
+  | WNum _ => None
+  | WBin WAdd a b =>
+      match b with
+      | WSelf _ | WCol _ => match an_wsum_leaves a with Some l => Some (l ++ [b]) | None => None end
+      | _ => None
+      end
+  | WBin _ _ _ => None
+  end.
+
+Definition an_wflat (w : awexp) : option (list awexp) :=
+  match w with WBin WAdd _ _ => an_wsum_leaves w | _ => None end.
+
+(* the value bound to an operand of such a sum; None = column missing from the row (or a non-integer avg) *)
+Definition an_wleaf_val (vals : list ares) (r : arow) (l : awexp) : option aval :=
+  match l with
+  | WSelf i => match nth_error vals i with Some (ARV v) => Some v | _ => None end
+  | WCol n => alookup n r
+  | _ => None
+  end.
+
+Fixpoint an_opts {A : Type} (l : list (option A)) : option (list A) :=
+  match l with
+  | [] => Some []
+  | Some x :: t => match an_opts t with Some r => Some (x :: r) | None => None end
+  | None :: _ => None
+  end.
+
+(* cast.ToString of an operand (integer-valued float64 prints as the integer) *)
+Definition an_wstr (v : aval) : bytes :=
+  match v with
+  | AVNull => []
+  | AVInt z | AVFlt z => an_decz z
+  | AVStr s => s
+  | AVBool b => if b then an_true_txt else an_false_txt
+  end.
+
+(* expr-lang proper (tried before the fallbacks): numbers with numbers, and + also joins text with text; any
+   other pairing (NULL, bool, text with number) is a run-time error *)
+Inductive awval := WVNum (z : Z) | WVStr (s : bytes).
+
+Definition an_wtyped_leaf (v : aval) : option awval :=
+  match v with AVInt z | AVFlt z => Some (WVNum z) | AVStr s => Some (WVStr s) | _ => None end.
+
+Fixpoint an_wtyped (vals : list ares) (r : arow) (w : awexp) : option awval :=
+  match w with
+  | WSelf i => match nth_error vals i with Some (ARV v) => an_wtyped_leaf v | _ => None end
+  | WCol n => match alookup n r with Some v => an_wtyped_leaf v | None => None end
+  | WNum z => Some (WVNum z)
+  | WBin op a b =>
+      match an_wtyped vals r a, an_wtyped vals r b with
+      | Some (WVNum p), Some (WVNum q) => Some (WVNum (an_wop op p q))
+      | Some (WVStr x), Some (WVStr y) => match op with WAdd => Some (WVStr (x ++ y)) | _ => None end
+      | _, _ => None
+      end
+  end.
+
+Definition an_weval (sql : bool) (w : awexp) (vals : list ares) (r : arow) : aout :=
+  match an_wflat w with
+  | Some ls =>
+      match an_opts (map (an_wleaf_val vals r) ls) with
+      | None => AOV AVNull
+      | Some vs =>
+          match an_opts (map an_num vs) with
+          | Some zs => AOV (AVFlt (fold_right Z.add 0%Z zs))
+          | None => if sql && existsb an_is_null vs then AOV AVNull
+                    else AOV (AVStr (concat (map an_wstr vs)))
+          end
+      end
+  | None =>
+      match an_wtyped vals r w with
+      | Some (WVNum z) => AOV (AVFlt z)
+      | Some (WVStr t) => AOV (AVStr t)
+      | None => match an_wnumeval vals r w with Some z => AOV (AVFlt z) | None => AOV AVNull end
+      end
+  end.
+
+(* every call of the item is applied to its own state, whatever the other calls return *)
+Fixpoint an_calls_apply (cs : list acall) (ss : list acstate) (r : arow) : list acstate * list ares :=
+  match cs, ss with
+  | c :: ct, s :: st => let '(s', v) := an_call_apply c s r in
+                        let '(st', vs) := an_calls_apply ct st r in (s' :: st', v :: vs)
+  | _, _ => ([], [])
+  end.
+
 Inductive afstate :=
 | AFSCalls (l : list acstate)
 | AFSNamed (p : option arow)
@@ -348,10 +490,11 @@ Definition an_field_init (k : afkind) : afstate :=
   | AKWrap2 c1 c2 => AFSCalls [an_new_state (ca_fn c1); an_new_state (ca_fn c2)]
   | AKNamed _ => AFSNamed None
   | AKCols _ _ _ => AFSCols []
+  | AKExpr cs _ => AFSCalls (map (fun c => an_new_state (ca_fn c)) cs)
   end.
 
 (* evaluate / evaluateMultiColumn after the WHEN gate and the state lookup: one counted row *)
-Definition an_field_apply (k : afkind) (st : afstate) (r : arow) : afstate * aout :=
+Definition an_field_apply_g (sql : bool) (k : afkind) (st : afstate) (r : arow) : afstate * aout :=
   match k, st with
   | AKSingle c, AFSCalls [s] =>
       let '(s', v) := an_call_apply c s r in (AFSCalls [s'], an_out_of_res v)
@@ -368,25 +511,19 @@ Definition an_field_apply (k : afkind) (st : afstate) (r : arow) : afstate * aou
       let cv := map (fun n => (n, an_eval r (AEField n))) cols in
       let '(p', out) := an_ccols_apply prefix (an_to_bool (an_eval r ign)) p cv in
       (AFSCols p', AOMap out)
+  | AKExpr cs w, AFSCalls ss =>
+      let '(ss', vs) := an_calls_apply cs ss r in (AFSCalls ss', an_weval sql w vs r)
   | _, _ => (st, AOV AVNull)      (* unreachable *)
   end.
+
+(* the code as it is: the bridge's arithmetic *)
+Definition an_field_apply : afkind -> afstate -> arow -> afstate * aout := an_field_apply_g false.
 
 (* the value returned when WHEN is false and the partition has no earlier result *)
 Definition an_field_dflt (k : afkind) : aout :=
   match k with AKCols _ _ _ => AOMap [] | _ => AOV AVNull end.
 
 (* ---------------------------------------------------------------- partition key (typeKey, partitionKey) *)
-Fixpoint an_dec_f (f : nat) (n : N) : bytes :=
-  match f with
-  | O => []
-  | S f' => if (n <? 10)%N then [48 + n]%N else an_dec_f f' (n / 10)%N ++ [48 + n mod 10]%N
-  end.
-Definition an_dec (n : N) : bytes := an_dec_f (S (N.size_nat n)) n.           (* strconv.Itoa, n >= 0 *)
-Definition an_decz (z : Z) : bytes :=
-  match z with
-  | Zneg p => 45%N :: an_dec (Npos p)
-  | _ => an_dec (Z.to_N z)
-  end.
 
 Definition an_txt_nil : bytes := [110; 105; 108; 124]%N.                      (* "nil|" *)
 Definition an_txt_string : bytes := [115; 116; 114; 105; 110; 103; 124]%N.    (* "string|" *)
